@@ -42,6 +42,22 @@ extern "C" void verif_harness() {
     else { SYM_ASSUME(a >= 0 && b >= 0); SYM_ASSERT(RandomTools::qBeta(0.0, a, b) == 0.0 && RandomTools::qBeta(1.0, a, b) == 1.0, "qBeta at probability 0 / 1 is not the end of the support");
       double p = symd("p"); SYM_ASSUME(p >= 0 && p <= 1 && (a < 0 || b < 0)); }
     break; }
+  case 4: {  // monotonicity and range of the closed-form kernels (two-point queries over all reals in the region)
+    int k = __sym_choose("kernel", 0, 2);
+    if (k == 0) { // normal cdf, central region |x| <= 0.67448975: a rational function of x on each side of 0; non-negative derivative everywhere on each side, on the right side of 1/2, inside [0,1]
+      double x1 = symd("x1"); SYM_ASSUME(x1 >= -0.67448975 && x1 <= 0.67448975 && (x1 > 1e-20 || x1 < -1e-20));   /* |x| <= 1e-20 switches to the linear term alone: a step of relative size 1e-40, invisible in double arithmetic */
+      double c1 = RandomTools::pNorm(x1);
+#ifndef SYM_REPLAY
+      SYM_ASSERT(__sym_diff(c1, x1) >= 0, "normal cdf has a negative derivative somewhere in its central region");
+#else
+      { double h = 1e-7; if (fabs(x1) > 2 * h && fabs(x1) + h < 0.67448975) SYM_ASSERT(RandomTools::pNorm(x1 + h) - RandomTools::pNorm(x1 - h) >= -1e-14, "normal cdf has a negative derivative somewhere in its central region"); }
+#endif
+      SYM_ASSERT(c1 >= 0 && c1 <= 1, "normal cdf leaves [0,1] in its central region"); SYM_ASSERT((x1 > 0) == (c1 > 0.5), "normal cdf is on the wrong side of 1/2 in its central region");
+      SYM_ASSERT_EQ(RandomTools::pNorm(-x1), 1 - c1, "normal cdf: reflection identity fails in the central region"); }
+    else { // normal quantile on one side of 1/2: y = sqrt(log(1/p'^2)) is monotone in p (axioms), the quantile is y + A(y)/B(y)
+      double p1 = symd("p1"), p2 = symd("p2"); if (k == 1) SYM_ASSUME(p1 > 1e-20 && p1 < p2 && p2 < 0.5); else SYM_ASSUME(p1 >= 0.5 && p1 < p2 && 1 - p2 >= 1e-20);
+      SYM_ASSERT(RandomTools::qNorm(p1) <= RandomTools::qNorm(p2), "normal quantile is decreasing somewhere on one side of 1/2"); }
+    break; }
   default: { // location-scale wrapper of the normal cdf: two calls on identical arguments run the same kernel (concrete standardised point, symbolic location/scale)
     static const double Z[3] = {-1.25, 0.0, 2.5}; double z = Z[__sym_choose("z", 0, 2)], mu = symd("mu"), sg = sympos("sigma");
     SYM_ASSERT(RandomTools::pNorm(mu + sg * z, mu, sg) == RandomTools::pNorm(z), "pNorm(x, mu, sigma) differs from pNorm((x-mu)/sigma)");
